@@ -31,7 +31,7 @@ var builtinRef = map[string][2]string{
 var stringableRef = []string{"bool", "float32", "float64", "int", "int16", "int32", "int64", "int8", "string", "uint", "uint16", "uint32", "uint64", "uint8", "uintptr"}
 
 func checkC16(c *Ctx) {
-	c.Explain("scanned schemas follow encoding/json: (R1) swaggerSchemaForType maps every Go builtin to the (type, format) encoding/json's output has, and complex kinds to an error; (R2) an unnamed []byte is a base64 string, time.Time (by package path) a date-time string, json.RawMessage an object, string-keyed maps additionalProperties; (R3) no type switch over go/types.Type in the scanner panics in its default arm; (R4) json tags: the option scan skips the name element, '-' ignores the field, ',string' applies exactly to the kinds encoding/json quotes; unexported fields are skipped but embedded fields are never filtered on their own export status; (R5) packages are identified by import path, never by name, in comparisons and cache keys. " +
+	c.Explain("scanned schemas follow encoding/json: (R1) swaggerSchemaForType maps every Go builtin to the (type, format) encoding/json's output has, and complex kinds to an error; (R2) a slice of uint8-kinded elements without MarshalJSON/MarshalText is a base64 string, the TextMarshaler test precedes pointer unwrapping, time.Time (by package path) a date-time string, json.RawMessage an object, string-keyed maps additionalProperties; (R3) no type switch over go/types.Type in the scanner panics in its default arm; (R4) json tags: the option scan skips the name element, '-' ignores the field, ',string' applies exactly to the kinds encoding/json quotes; unexported fields are skipped but embedded fields are never filtered on their own export status; (R5) packages are identified by import path, never by name, in comparisons and cache keys. " +
 		"Decides these table/shape conditions, not validity of every encoded value against the scanned schema.")
 	c.Assume("encoding/json semantics as documented for go1.23 (builtin kinds, []byte → base64, ',string' kinds, promotion of exported fields of embedded structs)")
 	prog := c.Prog("./codescan")
@@ -186,13 +186,55 @@ func checkCompositeKinds(c *Ctx, pk *packages.Package) {
 			}
 			return true
 		})
-		mentionsUint8 := strings.Contains(nodeText(pk, cc), "types.Uint8") || strings.Contains(nodeText(pk, cc), "types.Byte")
-		if typedPos.IsValid() && itemsPos.IsValid() && typedPos < itemsPos && mentionsUint8 {
+		// the predicate of the shortcut: the arm itself plus the same-package helpers it calls
+		pred := nodeText(pk, cc)
+		ast.Inspect(cc, func(m ast.Node) bool {
+			if call, ok := m.(*ast.CallExpr); ok {
+				if fn := goan.Callee(info, call); fn != nil && fn.Pkg() == pk.Types && fn.Name() != "buildFromType" {
+					if hd := load.FuncDecl(pk, load.RecvNameOf(fn)+fn.Name()); hd != nil && hd.End()-hd.Pos() < 1500 {
+						pred += nodeText(pk, hd)
+					}
+				}
+			}
+			return true
+		})
+		// encoding/json: base64 iff the element is of uint8 kind (by underlying type) and has no
+		// MarshalJSON / MarshalText method (on T or *T)
+		kind := (strings.Contains(pred, "types.Uint8") || strings.Contains(pred, "types.Byte")) && strings.Contains(pred, "Underlying()")
+		marsh := strings.Contains(pred, "MarshalJSON") && strings.Contains(pred, "MarshalText")
+		if typedPos.IsValid() && itemsPos.IsValid() && typedPos < itemsPos && kind && marsh {
 			okBytes = true
 		}
 		return true
 	})
-	c.Check(okBytes, rule, "codescan.schemaBuilder.buildFromType › []byte", c.posOf(pk, fd.Pos()), "string/byte", "an unnamed []byte is not mapped to string/byte before its elements are described: encoding/json emits a base64 string, the schema says array of integers")
+	c.Check(okBytes, rule, "codescan.schemaBuilder.buildFromType › []byte", c.posOf(pk, fd.Pos()), "string/byte for uint8-kinded elements without marshal methods", "the slice arm does not apply encoding/json's rule — a slice whose element is of uint8 kind (by underlying type) and has neither MarshalJSON nor MarshalText is a base64 string — before its elements are described: the schema says array where the encoder writes a string (or the converse for elements with their own marshaler)")
+	// the TextMarshaler test sees the type as declared: it precedes the unwrapping of pointers
+	var implPos, unwrapPos token.Pos
+	ast.Inspect(fd.Body, func(n ast.Node) bool {
+		call, ok := n.(*ast.CallExpr)
+		if !ok {
+			return true
+		}
+		if fn := goan.Callee(info, call); fn != nil {
+			if goan.CalleeName(fn) == "go/types.Implements" && len(call.Args) == 2 && !implPos.IsValid() {
+				if id, ok := call.Args[0].(*ast.Ident); ok && fd.Type.Params != nil && len(fd.Type.Params.List) > 0 && id.Name == fd.Type.Params.List[0].Names[0].Name {
+					implPos = call.Pos()
+				}
+			}
+			if fn.Name() == "buildFromType" && len(call.Args) >= 1 {
+				if ec, ok := ast.Unparen(call.Args[0]).(*ast.CallExpr); ok && goan.LastSel(ec.Fun) == "Elem" {
+					if se, ok := ec.Fun.(*ast.SelectorExpr); ok && goan.NamedPath(info.TypeOf(se.X)) == "go/types.Pointer" {
+						if !unwrapPos.IsValid() || call.Pos() < unwrapPos {
+							unwrapPos = call.Pos()
+						}
+					}
+				}
+			}
+		}
+		return true
+	})
+	c.Check(implPos.IsValid() && unwrapPos.IsValid() && implPos < unwrapPos, rule, "codescan.schemaBuilder.buildFromType › TextMarshaler test precedes pointer unwrapping", c.posOf(pk, fd.Pos()), "types.Implements(tpe, TextMarshaler) first",
+		"a pointer is unwrapped before the encoding.TextMarshaler test: a field *T whose MarshalText has a pointer receiver is described as T's object while encoding/json writes a string")
 	// time.Time and RawMessage by path
 	src := nodeText(pk, fd)
 	c.Check(strings.Contains(src, `PkgPath == "time"`) && strings.Contains(src, `"date-time"`), rule, "codescan.schemaBuilder.buildFromType › time.Time", c.posOf(pk, fd.Pos()), "string/date-time, package tested by path", "time.Time is not recognised by package path and mapped to string/date-time")
